@@ -202,6 +202,19 @@ func c45(c *Ctx) {
 			}
 		}
 	})
+	c.Ob("error-discipline", "R2", "in the resource parsers no error returned by a helper and tested against nil can lead to a success return (a rejected sub-resource never yields an accepted resource); the route walk visits every route", 20, func() {
+		n := 0
+		for _, fn := range []string{"parseEDSRespProto", "parseEndpoints", "routesProtoToSlice", "generateRDSUpdateFromRouteConfiguration", "hashPoliciesProtoToSlice", "processClientSideListener", "processServerSideListener", "validateClusterAndConstructClusterUpdate", "unmarshalEndpointsResource", "unmarshalRouteConfigResource", "unmarshalClusterResource", "unmarshalListenerResource", "generateRetryConfig", "processHTTPFilters", "processNetworkFilters"} {
+			f := c.P.LookupFunc(xdsrsrc, fn)
+			if f == nil || f.Blocks == nil {
+				continue
+			}
+			n += c.ErrorsPropagate(f, fn, nil)
+		}
+		c.Expect(n >= 20, nil, nil, "error-sites", "fewer tested helper errors than confirmed on the reviewed tree")
+		rs := c.fn(xdsrsrc, "routesProtoToSlice")
+		c.Expect(c.NoEarlyExit(rs, ParamV("routes"), "every-route-visited") == 1, nil, rs, "route-walk", "walk over the routes not found")
+	})
 	c.Ob("eds-invariants", "R2", "parseEDSRespProto / parseEndpoints: locality id required; locality weight sums per priority in uint64 checked against MaxUint32; duplicate (priority, locality) and duplicate addresses rejected by check-then-insert; priorities contiguous from 0; endpoint weight non-zero; endpoint weight sum checked", 9, func() {
 		f := c.fn(xdsrsrc, "parseEDSRespProto")
 		endpb := "github.com/envoyproxy/go-control-plane/envoy/config/endpoint/v3"
